@@ -137,7 +137,13 @@ fn enumerated() -> Vec<Scenario> {
         s
     };
     let mut faulty_scripts: Vec<ConnScript> = Vec::new();
-    for kind in FAULT_KINDS {
+    let mut kinds: Vec<FaultKind> = FAULT_KINDS.to_vec();
+    // generated undecodable frames: the three forms, lengths around 64 / 128 / 256 bytes with
+    // multi-byte characters straddling those offsets
+    for seed in 0..24u16 {
+        kinds.push(FaultKind::Soup { seed: seed * 7 + 1, len: [3, 30, 61, 62, 63, 64, 65, 66, 126, 127, 128, 129, 200, 255, 256, 257, 300, 511, 513, 700, 20, 90, 10, 1][seed as usize] });
+    }
+    for kind in kinds {
         for pos in 0..5 {
             let mut f = base.clone();
             f[pos] = FrameSpec::Fault(kind);
@@ -212,7 +218,7 @@ fn enumerated() -> Vec<Scenario> {
 }
 
 pub fn run(ctx: &Ctx) -> i32 {
-    let (shards, cases) = ctx.tier.pick((8, 2000), (64, 20_000));
+    let (shards, cases) = ctx.tier.pick((16, 8000), (64, 20_000));
     let (mut stats, mut viol) = run_shards(
         ctx,
         "random",
